@@ -88,6 +88,76 @@ async fn run(name: &str) -> Result<(), String> {
                 Err(format!("discovery from the origin returned (path, applies in) = {:?}; unexpected {:?}; missing {:?}", got, got.difference(&want).collect::<Vec<_>>(), want.difference(&got).collect::<Vec<_>>()))
             }
         }
+        // C03 (BOUNDED: 320 ignore-file configurations x 3 constructions x ~60 probes on one tree with prefix-named siblings): the real filter's
+        // verdict equals an independent evaluation of the documented rule (nearest directory first; the first file that says something decides)
+        "ignore_rule_bounded" => {
+            use ignore::gitignore::GitignoreBuilder;
+            let dirs = ["", "test", "tests", "test/sub", "tests/sub", "src", "x", "test/gen"];
+            for d in dirs { std::fs::create_dir_all(root.join(d)).unwrap(); }
+            let cand: [(&str, Vec<Option<&str>>); 5] = [
+                ("", vec![Some("*.rs\n"), Some("/a.rs\nsub/\n"), Some("**/gen\n!keep.log\n*.log\n"), Some("test/a.rs\n# comment\n\nx/**\n")]),
+                ("test", vec![None, Some("!*.rs\n"), Some("*.tmp\n/a.rs\n"), Some("sub/\n"), Some("!sub/\n*.log\n")]),
+                ("test/sub", vec![None, Some("!a.rs\n"), Some("*.rs\n!keep.log\n"), Some("gen\n")]),
+                ("tests", vec![None, Some("*.tmp\n")]),
+                ("tests/sub", vec![None, Some("zzz\n")]),
+            ];
+            let names = ["a.rs", "b.tmp", "keep.log", "o.log", "gen"];
+            let mut checked = 0usize; let mut configs = 0usize;
+            for i0 in 0..cand[0].1.len() { for i1 in 0..cand[1].1.len() { for i2 in 0..cand[2].1.len() { for i3 in 0..cand[3].1.len() { for i4 in 0..cand[4].1.len() {
+                let pick = [i0, i1, i2, i3, i4];
+                // listed order: origin first, then deeper
+                let mut listed: Vec<(PathBuf, String)> = vec![];
+                for (k, (d, cs)) in cand.iter().enumerate() {
+                    let f = root.join(d).join(".gitignore");
+                    match cs[pick[k]] { Some(c) => { std::fs::write(&f, c).unwrap(); listed.push((root.join(d), c.to_string())); } None => { let _ = std::fs::remove_file(&f); } }
+                }
+                configs += 1;
+                let files: Vec<IgnoreFile> = listed.iter().map(|(d, _)| file(&d.join(".gitignore"), Some(d))).collect();
+                let mut rev = files.clone(); rev.reverse();
+                let built_new = IgnoreFilter::new(&root, &files).await.map_err(|e| e.to_string())?;
+                let built_rev = IgnoreFilter::new(&root, &rev).await.map_err(|e| e.to_string())?;
+                let mut built_add = IgnoreFilter::empty(&root);
+                for f in &files { built_add.add_file(f).await.map_err(|e| e.to_string())?; }
+                // independent evaluation
+                let reference = |p: &Path, is_dir: bool| -> bool {
+                    let mut anc: Vec<&(PathBuf, String)> = listed.iter().filter(|(d, _)| p.starts_with(d) && p != d.as_path()).collect();
+                    anc.sort_by_key(|(d, _)| std::cmp::Reverse(d.components().count()));
+                    for (d, content) in anc {
+                        let mut b = GitignoreBuilder::new(d);
+                        for line in content.lines() { if line.is_empty() || line.starts_with('#') { continue; } b.add_line(None, line).unwrap(); }
+                        let gi = b.build().unwrap();
+                        let m = gi.matched_path_or_any_parents(p, is_dir);
+                        if m.is_ignore() { return true; }
+                        if m.is_whitelist() { return false; }
+                    }
+                    false
+                };
+                let mut probes: Vec<(PathBuf, bool)> = vec![];
+                for d in dirs { for n in names { probes.push((root.join(d).join(n), false)); } probes.push((root.join(d).join("gen"), true)); }
+                // directories themselves, unless an ignore file is stored in that very directory (left unspecified by the property)
+                for d in dirs { let p = root.join(d); if *d != *"" && !listed.iter().any(|(ld, _)| *ld == p) { probes.push((p, true)); } }
+                probes.push((root.parent().unwrap().join("vx-outside-a.rs"), false));
+                for (p, is_dir) in probes {
+                    let want = reference(&p, is_dir);
+                    for (how, f) in [("IgnoreFilter::new", &built_new), ("IgnoreFilter::new (files listed deepest first)", &built_rev), ("empty + add_file", &built_add)] {
+                        let m = f.match_path(&p, is_dir);
+                        let got = m.is_ignore();
+                        checked += 1;
+                        if got != want {
+                            return Err(format!("ignore files {:?}, built by {how}: {} {} is {} but the nearest-file-first evaluation says {}", listed.iter().map(|(d, c)| (d.strip_prefix(&root).unwrap().join(".gitignore"), c.as_str())).collect::<Vec<_>>(),
+                                if is_dir { "directory" } else { "file" }, p.strip_prefix(&root).unwrap_or(&p).display(), if got { "ignored" } else { "not ignored" }, if want { "ignored" } else { "not ignored" }));
+                        }
+                        if is_dir { let pass = f.check_dir(&p); if pass == want { return Err(format!("check_dir({}) = {pass} disagrees with match_path (ignored = {want}), built by {how}", p.display())); } }
+                    }
+                    if !is_dir {
+                        let fe = IgnoreFilterer(built_new.clone());
+                        if passes(&fe, &p) == want { return Err(format!("IgnoreFilterer::check_event on {} disagrees with the rule (ignored = {want})", p.display())); }
+                    }
+                }
+            }}}}}
+            println!("INFO ignore_rule_bounded: {configs} configurations, {checked} verdicts");
+            Ok(())
+        }
         // test/.gitignore re-includes *.rs; that negation must not leak into the sibling tests/ whose name has test as a textual prefix
         "prefix_sibling_negation" => {
             std::fs::write(root.join(".gitignore"), "*.rs\n").unwrap();
